@@ -183,8 +183,18 @@ func finish(aEnc, rEnc, msg []byte, a, r *big.Int) []byte {
 	return append(append([]byte{}, rEnc...), ed.LEBytes(s, 32)...)
 }
 
-// message lengths far from the short ones: around SHA-512 blocks and around 1 KiB, 2 KiB, 4 KiB
+// message lengths far from the short ones: around SHA-512 blocks, around 1 KiB, 2 KiB, 4 KiB, and (one
+// in forty) around multiples of 64 KiB
 func genMsg(t *rapid.T) []byte {
+	if h.Pick(t, "mhuge", 40, 1) == 1 { // around and at multiples of 64 KiB (chunked hashing)
+		n := h.OneOf(t, "mhl", 65535, 65536, 65537, 100000, 131071, 131072, 131073, 196608, 262144, 300000)
+		fill := rapid.Byte().Draw(t, "mhfill")
+		m := make([]byte, n)
+		for i := range m {
+			m[i] = fill + byte(i*31+i>>8)
+		}
+		return m
+	}
 	switch h.Pick(t, "ml", 6, 2, 2) {
 	case 0:
 		return h.Bytes(t, "msg", 0, 48)
